@@ -8,11 +8,13 @@ import (
 	"go/ast"
 	"go/token"
 	"go/types"
+	"sort"
 )
 
 // writeSet collects the variables syntactically assigned in the nodes, and whether heap
 // memory may be written (field/element stores, appends, calls).
 type writeSet struct {
+	names   map[string]bool // heap arrays that may be written (when heap is false)
 	globals map[*types.Var]bool
 	vars  map[types.Object]bool
 	heap  bool
@@ -52,10 +54,89 @@ func (x *Exec) collectWrites(ws *writeSet, nodes ...ast.Node) {
 		}
 		return nil, true
 	}
+	addName := func(n string) {
+		if ws.names == nil {
+			ws.names = map[string]bool{}
+		}
+		ws.names[n] = true
+	}
+	// heapTarget tries to name the heap array written by an lvalue; ok=false => unknown (havoc all)
+	var heapTarget func(e ast.Expr) bool
+	heapTarget = func(e ast.Expr) bool {
+		switch l := e.(type) {
+		case *ast.ParenExpr:
+			return heapTarget(l.X)
+		case *ast.IndexExpr:
+			t := x.typeOf(l.X)
+			if t == nil {
+				return false
+			}
+			switch u := t.Underlying().(type) {
+			case *types.Slice:
+				addName(memName(x.eng.tm.sortOf(u.Elem())))
+				return true
+			case *types.Map:
+				vn, dn, _, _ := x.mapNames(t)
+				addName(vn)
+				addName(dn)
+				return true
+			case *types.Array:
+				return heapTarget(l.X)
+			}
+			return false
+		case *ast.SelectorExpr:
+			sel := x.selection(l)
+			if sel == nil || sel.Kind() != types.FieldVal {
+				return false
+			}
+			// walk the selection path to the last pointer indirection
+			t := x.typeOf(l.X)
+			path := sel.Index()
+			lastName := ""
+			for _, i := range path {
+				if t == nil {
+					return false
+				}
+				if isPointer(t) {
+					st := elemOfPointer(t)
+					if !isStruct(st) {
+						return false
+					}
+					si := x.eng.tm.structOf(st)
+					lastName = fieldHeapName(si, i)
+					t = si.fields[i].Type()
+					continue
+				}
+				if !isStruct(t) {
+					return false
+				}
+				si := x.eng.tm.structOf(t)
+				t = si.fields[i].Type()
+			}
+			if lastName != "" {
+				addName(lastName)
+				return true
+			}
+			return heapTarget(l.X)
+		case *ast.StarExpr:
+			t := x.typeOf(l.X)
+			if t != nil && isPointer(t) && isStruct(elemOfPointer(t)) {
+				si := x.eng.tm.structOf(elemOfPointer(t))
+				for i := range si.fields {
+					addName(fieldHeapName(si, i))
+				}
+				return true
+			}
+			return false
+		}
+		return false
+	}
 	mark := func(e ast.Expr) {
 		id, h := base(e)
 		if h {
-			ws.heap = true
+			if !heapTarget(e) {
+				ws.heap = true
+			}
 		} else if id != nil && id.Name != "_" {
 			if o := x.objOf(id); o != nil {
 				ws.vars[o] = true
@@ -111,7 +192,9 @@ func (x *Exec) collectWrites(ws *writeSet, nodes ...ast.Node) {
 					}
 				}
 				if !isClosure && x.callMayWriteHeap(a) {
-					ws.heap = true
+					if !x.callWriteNames(a, addName) {
+						ws.heap = true
+					}
 				}
 				// method calls with pointer receivers on addressable locals, and &x arguments, may write x
 				for _, arg := range a.Args {
@@ -134,6 +217,33 @@ func (x *Exec) collectWrites(ws *writeSet, nodes ...ast.Node) {
 						if fl := x.frame().closures[o]; fl != nil {
 							x.collectWrites(ws, fl.Body)
 						}
+					}
+				}
+			case *ast.UnaryExpr:
+				if a.Op == token.AND {
+					if cl, ok := unparen(a.X).(*ast.CompositeLit); ok {
+						if t := x.typeOf(cl); t != nil && isStruct(t) {
+							addName("$alloc")
+							si := x.eng.tm.structOf(t)
+							for i := range si.fields {
+								addName(fieldHeapName(si, i))
+							}
+						} else {
+							ws.heap = true
+						}
+					}
+				}
+			case *ast.CompositeLit:
+				if t := x.typeOf(a); t != nil {
+					switch u := t.Underlying().(type) {
+					case *types.Slice:
+						addName("$balloc")
+						addName(memName(x.eng.tm.sortOf(u.Elem())))
+					case *types.Map:
+						vn, dn, _, _ := x.mapNames(t)
+						addName("$alloc")
+						addName(vn)
+						addName(dn)
 					}
 				}
 			case *ast.FuncLit:
@@ -168,7 +278,7 @@ func (x *Exec) callMayWriteHeap(call *ast.CallExpr) bool {
 		if o.Pkg() != nil && (o.Pkg().Path() == "math" || o.Pkg().Path() == "math/bits" || o.Pkg().Path() == "strconv" || o.Pkg().Path() == "strings" || o.Pkg().Path() == "unicode" || o.Pkg().Path() == "unicode/utf8") {
 			return false
 		}
-		if isSpecHelper(o) {
+		if isSpecHelper(o) || libPure[o.FullName()] {
 			return false
 		}
 		if x.eng.isPureFunc(o) {
@@ -211,6 +321,21 @@ func (x *Exec) havocVars(s *State, ws *writeSet) {
 	}
 	if ws.heap {
 		x.havocAllHeap(s)
+	} else if len(ws.names) > 0 {
+		var ns []string
+		for n := range ws.names {
+			ns = append(ns, n)
+		}
+		sort.Strings(ns)
+		for _, k := range ns {
+			if k == "$alloc" || k == "$balloc" {
+				old := x.heapGet(s, k, SInt)
+				x.havocHeap(s, k)
+				s.assume(Cmp("<=", old, s.heap[k]))
+				continue
+			}
+			x.havocHeap(s, k)
+		}
 	}
 	for g := range ws.globals {
 		x.heapSet(s, x.globalName(g), x.havocValue(s, "havoc_"+g.Name(), g.Type()))
@@ -292,6 +417,10 @@ func (x *Exec) cutLoop(s *State, ord int, label string, spec *LoopSpec, pos toke
 	if c != False {
 		b := h.clone()
 		b.assume(c)
+		if f.iterStarts == nil {
+			f.iterStarts = map[int]*State{}
+		}
+		f.iterStarts[ord] = b.clone()
 		var dec0 *Term
 		if spec != nil && spec.Decreases != nil {
 			dec0 = x.evalClauseVal(b, spec.Decreases)
@@ -531,4 +660,106 @@ func (x *Exec) tagHyp(t *Term, tag string) {
 		}
 	}
 	x.hypTags[t] = tag
+}
+
+// callWriteNames names the heap arrays a call may write; false => unknown
+func (x *Exec) callWriteNames(call *ast.CallExpr, add func(string)) bool {
+	obj := x.calleeObj(call)
+	switch o := obj.(type) {
+	case *types.Builtin:
+		switch o.Name() {
+		case "append", "copy":
+			t := x.typeOf(call.Args[0])
+			if st, ok := t.Underlying().(*types.Slice); ok {
+				add(memName(x.eng.tm.sortOf(st.Elem())))
+				add("$balloc")
+				return true
+			}
+		case "make":
+			t := x.typeOf(call.Args[0])
+			switch u := t.Underlying().(type) {
+			case *types.Slice:
+				add(memName(x.eng.tm.sortOf(u.Elem())))
+				add("$balloc")
+				return true
+			case *types.Map:
+				_, dn, _, _ := x.mapNames(t)
+				add(dn)
+				add("$alloc")
+				return true
+			}
+		case "new":
+			t := x.typeOf(call.Args[0])
+			add("$alloc")
+			if isStruct(t) {
+				si := x.eng.tm.structOf(t)
+				for i := range si.fields {
+					add(fieldHeapName(si, i))
+				}
+				return true
+			}
+		case "delete":
+			t := x.typeOf(call.Args[0])
+			_, dn, _, _ := x.mapNames(t)
+			add(dn)
+			return true
+		}
+		return false
+	case *types.Func:
+		fi := x.eng.funcs[o.Origin()]
+		if fi == nil {
+			return false
+		}
+		ct := x.eng.contracts[fi.Obj]
+		if ct == nil || !ct.HasAssign {
+			return false
+		}
+		add("$alloc")
+		add("$balloc")
+		for i, a := range ct.Assigns {
+			if a == "*" {
+				return false
+			}
+			e := ct.AssignsE[i]
+			switch n := e.(type) {
+			case *ast.CallExpr: // mem(e)
+				if len(n.Args) == 1 {
+					if st, ok := ct.AssignsI.TypeOf(n.Args[0]).Underlying().(*types.Slice); ok {
+						add(memName(x.eng.tm.sortOf(st.Elem())))
+						continue
+					}
+				}
+				return false
+			case *ast.SelectorExpr:
+				sel := ct.AssignsI.Selections[n]
+				bt := ct.AssignsI.TypeOf(n.X)
+				if sel != nil && bt != nil && isPointer(bt) && len(sel.Index()) == 1 {
+					si := x.eng.tm.structOf(elemOfPointer(bt))
+					add(fieldHeapName(si, sel.Index()[0]))
+					continue
+				}
+				return false
+			case *ast.StarExpr:
+				bt := ct.AssignsI.TypeOf(n.X)
+				if bt != nil && isPointer(bt) && isStruct(elemOfPointer(bt)) {
+					si := x.eng.tm.structOf(elemOfPointer(bt))
+					for i := range si.fields {
+						add(fieldHeapName(si, i))
+					}
+					continue
+				}
+				return false
+			case *ast.Ident:
+				if v, ok := ct.AssignsI.ObjectOf(n).(*types.Var); ok && x.isGlobal(v) {
+					add(x.globalName(v))
+					continue
+				}
+				return false
+			default:
+				return false
+			}
+		}
+		return true
+	}
+	return false
 }
